@@ -25,6 +25,8 @@ SCRIPTS = [
     ('two-persistent', 'DS_r <- DS_1; DS_q <- DS_1;'),
     ('with-scalars', 'DS_r <- DS_1; sc_i <- 3 + 4; sc_s <- "a,b" || "c"; sc_t := 1; sc_b <- true; sc_z <- cast(null, integer); sc_a <- "x y";'),
     ('only-temporary', 'DS_a := DS_1;'),
+    ('with-typed-scalars', 'DS_r <- DS_1; sc_d <- cast("2020-01-01", date); sc_dt <- cast("2020-02-29 10:30:00", date); sc_p <- cast("2020Q1", time_period); '
+                           'sc_n <- 1.5; sc_q <- "a;b"; sc_neg <- -3; sc_f <- 1 = 2;'),
 ]
 TRICKY = ['a,b', 'q"uote', '"quoted"', 'line\nbreak', 'cr\rhere', '', ' lead', 'trail ', 'é€', 'NULL', "it's", 'a;b', 'tab\there', '""', ',', '\n']
 
